@@ -150,11 +150,28 @@ StrArgs == << <<>>, <<97>>, <<97, 98>>, <<226, 130, 172>>, <<97, 98, 99, 100, 10
 \* item contents offered to FlexVec::push / assign: contents of the trees that fit a generous region
 ItemContents(e) ==
   IF IsSized(e) THEN ElemArgs(e)
-  ELSE LET tv == TV(e, MinSize(e) + 4 * Align(e) + 4)
-           n == Len(tv)  m == MinI(n, AssignMax)
-           \* m contents spread evenly over the list (first and last included: the smallest and a large one)
-           idx(j) == IF m = 1 THEN 1 ELSE 1 + ((j - 1) * (n - 1)) \div (m - 1)
-       IN [j \in 1..m |-> Content(tv[idx(j)], e)]
+  ELSE LET tv == TV(e, RoomyMin(e) + 4 * Align(e) + 4)
+           n == Len(tv)
+           \* per variant of an enum (per type otherwise): the first and the last tree of the list -- the smallest content
+           \* with the first scalar values and the largest with the last ones -- plus, up to AssignMax, an even spread
+           grp(i) == IF e.k = "enum" THEN tv[i].tag ELSE 0
+           firsts == {i \in 1..n : \A j \in 1..(i - 1) : grp(j) # grp(i)}
+           lasts  == {i \in 1..n : \A j \in (i + 1)..n : grp(j) # grp(i)}
+           m == MinI(n, AssignMax)
+           spread == {IF m = 1 THEN 1 ELSE 1 + ((j - 1) * (n - 1)) \div (m - 1) : j \in 1..m}
+           idx == SetToSeq(firsts \cup lasts \cup spread)
+       IN [j \in 1..Len(idx) |-> Content(tv[idx[j]], e)]
+
+\* the same content with its tail container filled beyond what n bytes can hold (a replacement that passes the
+\* static room check of its variant / struct and then fails while its tail is being filled)
+RECURSIVE OverTail(_, _, _)
+OverTail(c, t, n) ==
+  CASE t.k = "vec" -> [i \in 1..(n + 1) |-> IF c = <<>> THEN Pick(SV(t.elem[1]), 2) ELSE c[1]]
+    [] t.k = "str" -> Rep(n + 1, 97)
+    [] t.k = "struct" /\ ~IsSized(t) -> [c EXCEPT ![Len(c)] = OverTail(@, t.fields[Len(t.fields)], n)]
+    [] t.k = "enum" /\ ~IsSized(t) /\ c.fs # <<>> /\ ~IsSized(t.vars[c.tag][Len(c.fs)]) ->
+         [c EXCEPT !.fs[Len(c.fs)] = OverTail(@, t.vars[c.tag][Len(c.fs)], n)]
+    [] OTHER -> c
 
 OpsAt(nv, nt, nl, isRoot) ==
   CASE nt.k = "vec" ->
@@ -180,7 +197,8 @@ OpsAt(nv, nt, nl, isRoot) ==
          \o << Op("pop", 0, <<>>), Op("clear", 0, <<>>) >>
          \o [n \in 1..(len + 2) |-> Op("truncate", n - 1, <<>>)]
     [] nt.k \in {"struct", "enum"} /\ ~IsSized(nt) ->
-         LET ic == ItemContents(nt) IN [j \in 1..Len(ic) |-> Op("assign", 0, ic[j])]
+         LET ic == ItemContents(nt) IN
+         [j \in 1..Len(ic) |-> Op("assign", 0, ic[j])] \o [j \in 1..Len(ic) |-> Op("assign", 0, OverTail(ic[j], nt, nl))]
     [] IsSized(nt) /\ nt.k # "unit" /\ ~isRoot -> LET ea == ElemArgs(nt) IN [j \in 1..Len(ea) |-> Op("set", 0, ea[j])]
     [] OTHER -> <<>>
 
